@@ -53,4 +53,17 @@ CHECKS["C11"] = dict(
              "DESIGN.md appendix A; bounded shape boxes.",
 )
 
+CHECKS["C05"] = dict(
+        src="checks/c05.cpp", cfg="rel", link="static", engine="A-case-explorer",
+        category="exploration", design_ref="DESIGN.md section 4, C05",
+        technique="bounded-exhaustive enumeration of k x limb-tuple alphabets x shapes on the real code against the digit expansion computed from the definition",
+        text="For every k in 1..62 every limb tuple over a per-k boundary alphabet (complete for a_size <= 3, digit-boundary carry chains "
+             "for a_size 4, and complete small scopes for small k) is normalised by the real code for every res_size 0..4 and compared "
+             "with the unique balanced expansion, whose oracle is itself checked against T mod 2^(k a_size) in 320-bit arithmetic; all "
+             "(res_size,a_size) in {0..4}^2, strides, big and sub-range forms (all begin<=end<=5, step 1..3), in place and out of place, "
+             "are compared byte for byte with the model image; the single-limb primitive is enumerated in its six argument shapes.",
+        note="Normalisation is coefficient-wise, so tuples are packed N per call; values restricted to the documented |a_i| <= 2^62; "
+             "alphabets are boundary-value sets, complete only for the small scopes stated in the evidence.",
+)
+
 NOT_YET = {}
